@@ -495,7 +495,7 @@ def main(argv):
     # the unrewritten twin for native replay is taken at the same moment (same /repo state)
     replayer = Replayer(scratch, kf, [])
     replayer.ensure()
-    logdir = os.path.join(VERIF, "logs", prop)
+    logdir = os.path.join(VERIF, "logs", prop if not only else f"{prop}-only-{os.getpid()}")
     shutil.rmtree(logdir, ignore_errors=True)
     os.makedirs(logdir, exist_ok=True)
 
@@ -677,6 +677,31 @@ def replay_only(a, harnesses, kf):
     return 0
 
 
+def repo_fn_names():
+    names = set()
+    for root, _, files in os.walk(os.path.join(REPO, "src")):
+        for f in files:
+            if f.endswith(".rs"):
+                for m in re.finditer(r"\bfn\s+(\w+)\s*[<(]", open(os.path.join(root, f), errors="replace").read()):
+                    names.add(m.group(1))
+    return names - {"new", "default", "fmt", "from", "main", "tests"}
+
+
+def functions_driven(sel):
+    """functions of /repo that the selected harness files call by name (entry points of the encoding;
+    everything they reach is encoded too)"""
+    names = repo_fn_names()
+    driven = set()
+    files = {h.file for h in sel}
+    files.add(os.path.join(HARNESS_DIR, "decoder", "rows.rs"))  # apply/create/accepted helpers
+    for f in sorted(files):
+        txt = open(f).read()
+        for m in re.finditer(r"\b(\w+)\s*\(", txt):
+            if m.group(1) in names:
+                driven.add(m.group(1))
+    return sorted(driven)
+
+
 def write_evidence(prop, tier, seed, sel, results, violations, known_lines, inconclusive, notes, wall, kf):
     samples, funcs, stubs = [], set(), set()
     obligations = discharged = 0
@@ -696,7 +721,7 @@ def write_evidence(prop, tier, seed, sel, results, violations, known_lines, inco
              "kani_checks": res["checks_total"], "kani_checks_failed": res["checks_failed"],
              "cover_satisfied": f"{res['cover_sat']}/{res['cover_total']}",
              "sat_vars": res["vars"], "sat_clauses": res["clauses"], "program_steps": res["steps"],
-             "solver_s": res["solver_s"], "symex_s": res["symex_s"], "wall_s": r["wall_s"],
+             "cbmc_s": res["verif_time_s"], "solver_s": res["solver_s"], "symex_s": res["symex_s"], "wall_s": r["wall_s"],
              "unwind": re.findall(r"kani::unwind\((\d+)\)", _harness_src(h))[:1]}
         if "replay_file" in r:
             s["replay"] = os.path.relpath(r["replay_file"], VERIF)
@@ -714,8 +739,10 @@ def write_evidence(prop, tier, seed, sel, results, violations, known_lines, inco
                     "reached a verdict",
             "samples": samples,
             "obligations": obligations, "discharged": discharged,
-            "functions_encoded": sorted(funcs),
+            "functions_driven": functions_driven(sel),
+            "functions_encoded_reported_by_cbmc": sorted(funcs),
             "stubs": sorted(stubs),
+            "cbmc_s": round(sum((results[h.name]["res"]["verif_time_s"] or 0.0) for h in sel), 1),
             "solver_s": round(solver_s, 2),
             "exhaustive": False,
             "explanation": "bounded model checking of the compiled MIR of /repo's working tree (snapshot taken at run "
